@@ -147,21 +147,33 @@ impl<T: RealNumber + ScalarOperand> BaseVector<T> for ArrayBase<OwnedRepr<T>, Ix
     }
 
     fn add_mut(&mut self, other: &Self) -> &Self {
+        if self.shape() != other.shape() {
+            panic!("A and B should have the same shape");
+        }
         *self += other;
         self
     }
 
     fn sub_mut(&mut self, other: &Self) -> &Self {
+        if self.shape() != other.shape() {
+            panic!("A and B should have the same shape");
+        }
         *self -= other;
         self
     }
 
     fn mul_mut(&mut self, other: &Self) -> &Self {
+        if self.shape() != other.shape() {
+            panic!("A and B should have the same shape");
+        }
         *self *= other;
         self
     }
 
     fn div_mut(&mut self, other: &Self) -> &Self {
+        if self.shape() != other.shape() {
+            panic!("A and B should have the same shape");
+        }
         *self /= other;
         self
     }
@@ -178,6 +190,9 @@ impl<T: RealNumber + ScalarOperand> BaseVector<T> for ArrayBase<OwnedRepr<T>, Ix
     }
 
     fn copy_from(&mut self, other: &Self) {
+        if self.shape() != other.shape() {
+            panic!("A and B should have the same shape");
+        }
         self.assign(other);
     }
 }
@@ -274,21 +289,33 @@ impl<T: RealNumber + ScalarOperand + AddAssign + SubAssign + MulAssign + DivAssi
     }
 
     fn add_mut(&mut self, other: &Self) -> &Self {
+        if self.shape() != other.shape() {
+            panic!("A and B should have the same shape");
+        }
         *self += other;
         self
     }
 
     fn sub_mut(&mut self, other: &Self) -> &Self {
+        if self.shape() != other.shape() {
+            panic!("A and B should have the same shape");
+        }
         *self -= other;
         self
     }
 
     fn mul_mut(&mut self, other: &Self) -> &Self {
+        if self.shape() != other.shape() {
+            panic!("A and B should have the same shape");
+        }
         *self *= other;
         self
     }
 
     fn div_mut(&mut self, other: &Self) -> &Self {
+        if self.shape() != other.shape() {
+            panic!("A and B should have the same shape");
+        }
         *self /= other;
         self
     }
@@ -385,6 +412,9 @@ impl<T: RealNumber + ScalarOperand + AddAssign + SubAssign + MulAssign + DivAssi
     }
 
     fn copy_from(&mut self, other: &Self) {
+        if self.shape() != other.shape() {
+            panic!("A and B should have the same shape");
+        }
         self.assign(other);
     }
 
